@@ -527,11 +527,17 @@ def show(v):
     if k == "pos":
         return [PosRef(v["p"], v["what"])]
     if k == "obj":
-        if len(v["ks"]) == 1:
-            inner = show(v["vs"][0])
+        # fields in sorted name order (C14: nothing shown depends on map iteration order)
+        if not v["ks"]:
+            return ["{\n    \n}"]
+        out = ["{\n    "]
+        for i, (key, val) in enumerate(sorted(zip(v["ks"], v["vs"]), key=lambda kv: kv[0])):
+            if i:
+                out.append(",\n    ")
+            inner = show(val)
             inner = [x.replace("\n", "\n    ") if isinstance(x, str) else x for x in inner]
-            return ["{\n    %s: " % v["ks"][0]] + inner + ["\n}"]
-        return [Unordered(v)]
+            out += ["%s: " % key] + inner
+        return out + ["\n}"]
     if k == "fn":
         return [AnyText()]
     raise ValueError("cannot show %r" % k)
